@@ -490,11 +490,23 @@ func cliNamesGate(res *Result, r *Rng) {
 	if r.Chance(1, 3) {
 		rs := GenRace(r)
 		txt = rs.Print(false)
-	} else {
+	} else if r.Bool() {
 		txt = GenCfg(r).Dump(GenDump(r, 5, 4))
+	} else {
+		txt = GenCfg(r).Dump(genPtrDump(r)) // pointer values that recur
 	}
-	off, _, _ := stack.ScanSnapshot(strings.NewReader(txt), io.Discard, &stack.Opts{})
-	on, _, _ := stack.ScanSnapshot(strings.NewReader(txt), io.Discard, &stack.Opts{NameArguments: true})
+	// the other options must not matter for the gate
+	o := stack.Opts{}
+	switch r.Intn(3) {
+	case 1:
+		o = stack.Opts{LocalGOROOT: goroot, LocalGOPATHs: []string{"/nonexistent/gp"}, GuessPaths: true}
+	case 2:
+		o = stack.Opts{LocalGOROOT: goroot, LocalGOPATHs: []string{"/nonexistent/gp"}, GuessPaths: true, AnalyzeSources: true}
+	}
+	oOn := o
+	oOn.NameArguments = true
+	off, _, _ := stack.ScanSnapshot(strings.NewReader(txt), io.Discard, &o)
+	on, _, _ := stack.ScanSnapshot(strings.NewReader(txt), io.Discard, &oOn)
 	res.Count("names-gate")
 	if (off == nil) != (on == nil) {
 		res.Violation(Finding{Stream: "cli", What: "NameArguments changes whether a snapshot is returned", Op: map[string]interface{}{"input": hb(txt)}})
@@ -512,7 +524,7 @@ func cliNamesGate(res *Result, r *Rng) {
 		}
 	}
 	if len(names) != 0 {
-		res.Violation(Finding{Stream: "cli", What: fmt.Sprintf("NameArguments is off but arguments carry names %q", names), Op: map[string]interface{}{"input": hb(txt)}})
+		res.Violation(Finding{Stream: "cli", What: fmt.Sprintf("NameArguments is off (GuessPaths=%v AnalyzeSources=%v) but arguments carry names %q", o.GuessPaths, o.AnalyzeSources, names), Op: map[string]interface{}{"input": hb(txt), "guess": o.GuessPaths, "analyze": o.AnalyzeSources}})
 	}
 	var onNames []string
 	for _, g := range on.Goroutines {
@@ -523,10 +535,36 @@ func cliNamesGate(res *Result, r *Rng) {
 	if len(onNames) != 0 {
 		res.Count("names-gate-named")
 	}
-	if a, b := jsonStr(eraseNames(mGs(on.Goroutines))), jsonStr(eraseNames(mGs(off.Goroutines))); a != b {
-		res.Violation(Finding{Stream: "cli", What: "NameArguments changes something else than argument names", Op: map[string]interface{}{"input": hb(txt)}})
+	// Args.Processed, the typed rendering made by source analysis, shows an argument by its
+	// pseudo-name when it has one: it is a rendering of (value, name), not an independent
+	// field, so it is left out of the comparison (and must show no pseudo-name with naming off).
+	eo, ef := eraseNames(mGs(on.Goroutines)), eraseNames(mGs(off.Goroutines))
+	if o.AnalyzeSources {
+		for _, gs := range [][]MG{eo, ef} {
+			for gi := range gs {
+				for ci := range gs[gi].Sig.Stack.Calls {
+					gs[gi].Sig.Stack.Calls[ci].Args.Processed = []HB{}
+				}
+			}
+		}
+		for _, g := range off.Goroutines {
+			for ci := range g.Stack.Calls {
+				for _, p := range g.Stack.Calls[ci].Args.Processed {
+					if rePseudoName.MatchString(p) {
+						res.Violation(Finding{Stream: "cli", What: fmt.Sprintf("NameArguments is off but the typed rendering %q shows a pseudo-name", p), Op: map[string]interface{}{"input": hb(txt), "guess": o.GuessPaths, "analyze": o.AnalyzeSources}})
+						return
+					}
+				}
+			}
+		}
+	}
+	if a, b := jsonStr(eo), jsonStr(ef); a != b {
+		res.Violation(Finding{Stream: "cli", What: fmt.Sprintf("NameArguments (GuessPaths=%v AnalyzeSources=%v) changes something else than argument names: %s", o.GuessPaths, o.AnalyzeSources, firstDiff(eo, ef)), Op: map[string]interface{}{"input": hb(txt), "guess": o.GuessPaths, "analyze": o.AnalyzeSources}})
 	}
 }
+
+// a pseudo-name as augmentation prints it: "#12" or "T(#12)"
+var rePseudoName = regexp.MustCompile(`(^|\()#[0-9]+(\)|$)`)
 
 // cliOptsGate: ScanSnapshot returns "invalid Opts" for exactly the invalid option sets.
 func cliOptsGate(res *Result, pool *DrvPool, r *Rng) {
